@@ -1,8 +1,8 @@
 """C14 - a killed packer never leaves a file that reads as a complete image.
 
 For generated inputs, gensquashfs / tar2sqfs run under src/io_shim.c in 'kill' mode: SIGKILL immediately before the
-k-th write-like call (write, pwrite, ftruncate) on the output file, for EVERY k of the sequence (fresh output and
--f over an existing valid image).  The file left behind is offered to rdsquashfs -l /, rdsquashfs -d and sqfs2tar
+k-th write-like call (write, pwrite, ftruncate) on the output file, for EVERY k of the sequence (fresh output,
+-f over the same image, -f over a valid image of another tree).  The file left behind is offered to rdsquashfs -l /, rdsquashfs -d and sqfs2tar
 (asan) and to the independent parser: either every reader rejects it, or it reads exactly as the complete image.
 """
 import struct, os, re, hashlib, shutil
@@ -18,7 +18,9 @@ def cases(draw, tier="quick"):
     c = draw(scenarios.scen_cases(kinds=["gen_dir", "gen_file", "t2s"]))
     c["opts"]["j"] = draw(st.sampled_from([1, 2]))
     c["opts"]["e"] = draw(st.booleans())
-    c["over_existing"] = draw(st.booleans())
+    # False: fresh file; "same": -f over the finished image of the same input; "other": -f over a valid image of a different tree
+    # (whatever of it survives the run must not make the new, unfinished file readable)
+    c["over_existing"] = draw(st.sampled_from([False, "same", "other", "other"]))
     return c
 
 
@@ -65,12 +67,23 @@ def check_case(case, opts):
             raise Inconclusive("readers fail on the complete image")
         inside = 0
         accepted_complete = 0
+        other = None
+        if case.get("over_existing") == "other":
+            od = os.path.join(sc, "other_in")
+            os.makedirs(os.path.join(od, "old", "sub"))
+            for i, n in enumerate(("old/a.bin", "old/sub/b.bin", "version")):
+                with open(os.path.join(od, n), "wb") as fh:
+                    fh.write(hashlib.sha256(b"%d" % i).digest() * (1 + 300 * i))
+            other = os.path.join(sc, "other.sqfs")
+            r0 = vcommon.run([vcommon.tool("plain", "gensquashfs"), "-q", "-D", od, "-b", "4096", other], timeout=60)
+            if r0.rc != 0:
+                raise Inconclusive("cannot build the pre-existing image")
         for k in range(1, total + 1):
             d = os.path.join(sc, "k%d" % k)
             os.mkdir(d)
             out = os.path.join(d, "out.sqfs")
             if case.get("over_existing"):
-                shutil.copy(target, out)
+                shutil.copy(other if other else target, out)
                 ctx2 = dict(ctx)
                 if kind in ("gen_dir", "gen_file"):
                     ctx2["args"] = ["-f"] + ctx["args"]
@@ -117,7 +130,7 @@ def check_case(case, opts):
                         min(len(left), used), used, first, ", inside the super block" if first < 96 else ""))
                 if bad:
                     raise Violation("%s killed before output write %d of %d (%s): the file left behind (%d of %d bytes) is accepted by %s but %s" % (
-                        kind, k, total, "over an existing image" if case.get("over_existing") else "fresh file", len(left), len(refimg),
+                        kind, k, total, ("over an existing image of %s" % ("another tree" if other else "the same input")) if case.get("over_existing") else "fresh file", len(left), len(refimg),
                         ", ".join(accept + (["parser"] if pok else [])), "; ".join(bad)), None, sig="partial-accepted")
                 accepted_complete += 1
             else:
@@ -125,7 +138,7 @@ def check_case(case, opts):
                     if not err.strip():
                         raise Violation("%s rejects the partial file without a diagnostic" % n, None, sig="no-diagnostic")
             shutil.rmtree(d, ignore_errors=True)
-        cl = ["kind_" + kind, "over_existing" if case.get("over_existing") else "fresh"]
+        cl = ["kind_" + kind, ("over_existing_other" if other else "over_existing_same") if case.get("over_existing") else "fresh"]
         if accepted_complete:
             cl.append("complete_prefix_seen")
         return CaseInfo(inside >= 3, cl)
@@ -148,7 +161,7 @@ def main(tier, seed, scale=1.0):
     res.exhaustive = True
     res.extra["exhaustive_subspace"] = "per generated input: every crash point between two consecutive output-file system calls (all prefixes of the write sequence)"
     res.rule = ("Hypothesis inputs (directory, pack file, tar stream; fragments, xattrs, export table, several ids) x SIGKILL before every k-th "
-                "write/pwrite/ftruncate on the output file, fresh and -f over an existing image; non-trivial = >=3 crash points strictly inside "
+                "write/pwrite/ftruncate on the output file, fresh, -f over the finished image of the same input and -f over a valid image of a different tree; non-trivial = >=3 crash points strictly inside "
                 "the sequence; oracle = rdsquashfs -l/-d, sqfs2tar and the independent parser either all reject the leftover file (with a "
                 "diagnostic) or all read exactly the complete image")
     res.assumptions = ["models process death (the page cache keeps write order), not power loss with reordered blocks"]
